@@ -13,10 +13,10 @@ M = [
  ("m11_pubrec_keeps_window_entry", P, "            request.alarm.cancel()\n            del self.factory.windowPublish[self.addr][response.msgId]\n            reply = PUBREL()", "            reply = PUBREL()", "C09,C05"),
  ("m13_window_zero_accepted", B, "        if not (0 < n <= self.MAX_WINDOW):", "        if not (0 <= n <= self.MAX_WINDOW):", "C20"),
  ("m14_clientid_23_rejected", B, "len(request.clientId) > 23:", "len(request.clientId) >= 23:", "C20"),
- ("m15_pingresp_no_cancel", B, "        if self._pingReq.alarm:\n            self._pingReq.alarm.cancel()\n            self._pingReq.alarm = None\n\n\n    # ---------------------------\n    # Protocol API for subclasses", "        pass\n\n\n    # ---------------------------\n    # Protocol API for subclasses", "C15"),
- ("m16_ping_deadline_2k", B, "self._pingReq.alarm = self.callLater(self._pingReq.keepalive, doPingError)", "self._pingReq.alarm = self.callLater(2*self._pingReq.keepalive, doPingError)", "C15"),
+ ("m15_pingresp_no_cancel", B, "            self._pingReq.alarms.pop(0).cancel()\n", "            pass\n", "C15"),
+ ("m16_ping_deadline_2k", B, "self._pingReq.alarms.append(self.callLater(self._pingReq.keepalive, doPingError))", "self._pingReq.alarms.append(self.callLater(2*self._pingReq.keepalive, doPingError))", "C15"),
  ("m17_delivered_dup_always_false", P, "self.onPublish(pdu.topic, pdu.payload, pdu.qos, pdu.dup, pdu.retain, pdu.msgId)", "self.onPublish(pdu.topic, pdu.payload, pdu.qos, False, pdu.retain, pdu.msgId)", "C06"),
- ("m18_purge_release_no_errback", P, "            del self.factory.windowPubRelease[self.addr][k]\n            request.deferred.errback(reason)", "            del self.factory.windowPubRelease[self.addr][k]", "C11,C16"),
+ ("m18_purge_release_no_errback", P, "            del self.factory.windowPubRelease[self.addr][k]\n            purged.append(request)", "            del self.factory.windowPubRelease[self.addr][k]", "C11,C16"),
  ("m19_string_prefix_in_chars", D, "    l = len(encoded)-2\n", "    l = len(string)\n", "C01,C02"),
  ("m21_puback_wrong_id", P, "            reply = PUBACK()\n            reply.msgId = response.msgId", "            reply = PUBACK()\n            reply.msgId = response.msgId if response.msgId < 3 else response.msgId - 1", "C06"),
  ("m22_refill_pops_right", P, "            request = queue.popleft()", "            request = queue.pop()", "C10"),
@@ -27,7 +27,8 @@ M = [
  ("m27_suback_failure_mask", D, "        self.granted = [ (byte & 0x7F, byte & 0x80 == 0x80) ", "        self.granted = [ (byte & 0x03, byte & 0x80 == 0x80) ", "C01,C02"),
  ("m28_will_qos_shift", D, "(self.willQoS << 3)", "(self.willQoS << 2)", "C01,C02"),
  ("m29_varint_boundary", D, "        if value > 0:\n            digit |= 128", "        if value > 1:\n            digit |= 128", "C01,C02"),
- ("m31_ping_deadline_survives_loss", B, "        if self._pingReq.alarm:\n            self._pingReq.alarm.cancel()\n            self._pingReq.alarm = None\n\n    # --------------\n    # Helper methods", "        self._pingReq.alarm = None\n\n    # --------------\n    # Helper methods", "C15,C13"),
+ ("m31_ping_deadline_survives_loss", B, "        while self._pingReq.alarms:\n            self._pingReq.alarms.pop().cancel()\n", "        self._pingReq.alarms = []\n", "C15,C13"),
+ ("m32_pingresp_cancels_newest", B, "            self._pingReq.alarms.pop(0).cancel()\n", "            self._pingReq.alarms.pop().cancel()\n", "C15"),
  ("m30_qos2_delivered_at_publish_too", P, "            self.factory.windowPubRx[self.addr][response.msgId] = response\n", "            self.factory.windowPubRx[self.addr][response.msgId] = response\n            self._deliver(response)\n", "C06"),
 ]
 def main():
